@@ -56,9 +56,16 @@ void ApiRun::tx_check(const char *fn, int rc, long k, bool sq) {
 #define CALL(fnname, expr) api(fnname, [&]() { return (expr); })
 
 // ------------------------------------------------------------------------------------------------ plan generation
+// Names and codes at the length limits (a data name may have 2048 characters, a block or frame code 2043): only in the write /
+// round-trip configurations (boundary_bias), where they exercise the writer's line accounting.  Classes 1000.. / 2000..
+static const size_t LONG_NAME_LEN[] = { 2048, 2047, 2040, 2030 };
+static const size_t LONG_CODE_LEN[] = { 2043, 2042, 2036 };
+static ustr long_name(int idx, int variant) { ustr s = U("_l"); s += (char16_t) ('0' + idx); while (s.size() < LONG_NAME_LEN[idx]) s += (char16_t) ((variant ? 'N' : 'n')); return s; }
+static ustr long_code(int idx, int variant) { ustr s = U("c"); s += (char16_t) ('0' + idx); while (s.size() < LONG_CODE_LEN[idx]) s += (char16_t) ((variant ? 'C' : 'c')); return s; }
 NameRef ApiRun::gen_name(Rng &r, bool allow_invalid) {
     NameRef n;
     if (allow_invalid && r.chance(1, 14)) { n.invalid = (int) r.below(invalid_items().size()); return n; }
+    if (cfg.boundary_bias && !cfg.weights[O_PlantFail] && r.chance(1, 25)) { n.cls = 1000 + (int) r.below(4); n.variant = (int) r.below(2); return n; }
     size_t lim = std::min<size_t>(item_pool().size(), (size_t) cfg.name_classes);
     n.cls = (int) r.below(lim);
     n.variant = r.chance(1, 2) ? 0 : (int) r.below(item_pool()[(size_t) n.cls].variants.size());
@@ -67,6 +74,7 @@ NameRef ApiRun::gen_name(Rng &r, bool allow_invalid) {
 NameRef ApiRun::gen_code(Rng &r, bool allow_invalid) {
     NameRef n;
     if (allow_invalid && r.chance(1, 12)) { n.invalid = (int) r.below(invalid_codes().size()); return n; }
+    if (cfg.boundary_bias && !cfg.weights[O_PlantFail] && r.chance(1, 25)) { n.cls = 2000 + (int) r.below(3); n.variant = (int) r.below(2); return n; }
     size_t lim = std::min<size_t>(code_pool().size(), (size_t) cfg.code_classes);
     n.cls = (int) r.below(lim);
     n.variant = r.chance(1, 2) ? 0 : (int) r.below(code_pool()[(size_t) n.cls].variants.size());
@@ -74,10 +82,12 @@ NameRef ApiRun::gen_code(Rng &r, bool allow_invalid) {
 }
 ustr ApiRun::name_str(const NameRef &n, bool simple) const {
     if (n.invalid >= 0) return invalid_items()[(size_t) n.invalid];
+    if (n.cls >= 1000) return long_name(n.cls - 1000, simple ? 0 : n.variant);
     return item_pool()[(size_t) n.cls].variants[simple ? 0 : (size_t) n.variant];
 }
 ustr ApiRun::code_str(const NameRef &n, bool simple) const {
     if (n.invalid >= 0) return invalid_codes()[(size_t) n.invalid];
+    if (n.cls >= 2000) return long_code(n.cls - 2000, simple ? 0 : n.variant);
     return code_pool()[(size_t) n.cls].variants[simple ? 0 : (size_t) n.variant];
 }
 
